@@ -32,18 +32,31 @@ RULE = (
     "(config, mutation label, prior identity)."
 )
 ASSUMPTIONS = [
+    "end-to-end shards: a real gunicorn/uvicorn server process tree started from the tree under test (vf/e2e_launch.py: the repository's run_with_gunicorn / run_with_uvicorn; the SQL schema is made with the repository's metadata.create_all because its alembic env.py does not run with the installed SQLAlchemy; the notifier's fixed TCP port 6000 is replaced by a free port), spoken to over loopback TCP with the websockets client; real time, real sleeps",
     "unpredictability of challenges cannot be decided by observation: provenance (secrets.token_hex, >= 16 bytes) and distinctness are monitored instead",
     "URL case / trailing-slash variants and duplicated tags with one correct value are free; created_at exactly 600 s off is free",
     "identity is observed through behaviour: save requires role w (only P1 has it), query requires role r (only P2)",
 ]
 MIN_NONTRIVIAL = {"quick": 150, "thorough": 1500}
-REQUIRED_COUNTERS = ["payloads.must_refuse", "payloads.must_accept", "sequences", "challenges_checked"]
+REQUIRED_COUNTERS = ["e2e.e2e_challenges", "e2e.e2e_foreign_answers", "payloads.must_refuse", "payloads.must_accept", "sequences", "challenges_checked"]
 SHARD_TIMEOUT = {"quick": 600, "thorough": 3200}
 URL = "ws://relay.example:6969"
 NOW = 1700000000
 
 
 def plan(tier, seed):
+    return _plan(tier, seed) + e2e_plan(tier, seed)
+
+
+def e2e_plan(tier, seed):
+    """shards on a REAL server process tree (vf/e2e.py)"""
+    out = [{"mode": "e2e", "e2e": "c15", "backend": "sql", "workers": 3, "seed": seed}, {"mode": "e2e", "e2e": "c15", "backend": "lmdb", "workers": 2, "seed": seed}]
+    if tier == "thorough":
+        out += [{"mode": "e2e", "e2e": "c15", "backend": b, "workers": w, "seed": seed + 1 + w} for b in ("sql", "lmdb") for w in (2, 4)]
+    return out
+
+
+def _plan(tier, seed):
     out = []
     for backend in (("sql", "lmdb") if tier == "thorough" else ("sql", "lmdb")):
         for urls in ("list", "string", "default"):
@@ -422,6 +435,10 @@ def run_challenges(n, counters):
 
 
 def run_shard(spec):
+    if spec.get("mode") == "e2e":
+        from .. import e2e_cases
+
+        return e2e_cases.run_e2e_shard(ID, spec)
     counters = {}
     if spec["mode"] == "sweep":
         viols, nontrivial = R.run(run_sweep, spec["backend"], spec["urls"], counters, spec["part"], spec["parts"])
@@ -443,6 +460,10 @@ def run_shard(spec):
 
 
 def replay(rp, spec):
+    if rp.get("mode") == "e2e":
+        from .. import e2e_cases
+
+        return e2e_cases.run_e2e_shard(ID, rp)
     counters = {}
     if rp.get("mode") == "sweep":
         v, nt = R.run(run_sweep, rp["backend"], rp["urls"], counters, rp["part"], rp["parts"])
